@@ -4,7 +4,7 @@ records seeded/<name>/detection.json.  usage: run_seeded.py [name ...] [--props 
 import json, os, subprocess, sys, time, concurrent.futures as cf
 R = os.path.dirname(os.path.dirname(os.path.abspath(__file__)))
 # which checks are expected to see a given seeded change (property of the mutant first)
-EXTRA = {"R8_C13B": ["C05"], "R8_C14A": ["C13"], "R8_C14B": ["C05"], "R8_C16A": ["C20"], "R8_C18B": ["C09"], "R8_C09A": ["C04"], "R8_C09B": ["C04"], "R7_C01B": ["C10"], "R7_C06A": ["C10"], "R7_C06B": ["C05"], "R7_C08A": ["C02"], "R7_C09B": ["C12"], "R7_C14A": ["C13"], "R7_C14B": ["C04"], "R7_C15A": ["C12"], "R7_C15B": ["C03"], "R7_C18A": ["C04"], "R7_C18B": ["C08"], "R5_C07B": ["C01", "C15"], "R5_C09A": ["C06"], "R5_C09B": ["C08"], "R5_C12A": ["C03"], "R5_C14A": ["C11"], "R5_C15A": ["C09"], "R5_C15B": ["C03"], "R5_C19B": ["C05"], "R5_C10A": ["C02"], "R5_C01A": ["C02"], "R4_C01B": ["C03"], "R4_C10A": ["C03"], "R4_C10B": ["C03"], "R4_C09B": ["C15"], "R4_C03A": ["C15"], "R4_C12A": ["C03"], "R4_C14B": ["C18"], "R4_C18B": ["C14"], "R4_C05A": ["C19"], "R4_C01A": ["C15"], "R3_C01A": ["C14"], "R3_C01B": ["C14"], "R3_C02A": ["C01"], "R3_C02B": ["C01"], "R3_C03A": ["C12"], "R3_C03B": ["C12", "C15"], "R3_C07A": ["C08"], "R3_C09A": ["C08"], "R3_C10B": ["C03"], "R3_C11A": ["C03", "C12"], "R3_C11B": ["C12"], "R3_C12A": ["C03"], "R3_C14A": ["C01"], "R3_C14B": ["C01"], "R3_C15A": ["C03", "C07"], "R3_C15B": ["C03"], "R3_C19A": ["C20"], "R3_C20A": ["C16"], "R3_C16B": ["C20"], "R3_C06A": [], "R2_C11A": ["C03"], "R2_C12A": ["C03"], "R2_C03A": ["C01"], "R2_C09B": ["C08"], "R2_C07B": ["C08"], "R2_C10A": ["C06"], "R2_C14A": [], "R2_C01A": ["C10"], "R2_C06A": [], "C01A": ["C02"], "C01B": ["C02"], "C07A": ["C08"], "C07B": ["C15", "C03"], "C15A": ["C03", "C07"], "C15B": ["C03"], "C10A": ["C01"], "C10B": ["C03"], "C09A": ["C08"], "C14A": ["C01"], "C19B": ["C19"], "C04A": ["C06"], "C13A": ["C13"]}
+EXTRA = {"R9_C02A": ["C17"], "R9_C02B": ["C17"], "R9_C06A": ["C16"], "R9_C07A": ["C01"], "R9_C07B": ["C15"], "R9_C08A": ["C02"], "R9_C08B": ["C14"], "R9_C09A": ["C05"], "R9_C09B": ["C05"], "R9_C10A": ["C09"], "R9_C10B": ["C04"], "R9_C12A": ["C05"], "R9_C12B": ["C03"], "R9_C14B": ["C03"], "R9_C15A": ["C01"], "R9_C18B": ["C03"], "R9_C19A": ["C06"], "R8_C13B": ["C05"], "R8_C14A": ["C13"], "R8_C14B": ["C05"], "R8_C16A": ["C20"], "R8_C18B": ["C09"], "R8_C09A": ["C04"], "R8_C09B": ["C04"], "R7_C01B": ["C10"], "R7_C06A": ["C10"], "R7_C06B": ["C05"], "R7_C08A": ["C02"], "R7_C09B": ["C12"], "R7_C14A": ["C13"], "R7_C14B": ["C04"], "R7_C15A": ["C12"], "R7_C15B": ["C03"], "R7_C18A": ["C04"], "R7_C18B": ["C08"], "R5_C07B": ["C01", "C15"], "R5_C09A": ["C06"], "R5_C09B": ["C08"], "R5_C12A": ["C03"], "R5_C14A": ["C11"], "R5_C15A": ["C09"], "R5_C15B": ["C03"], "R5_C19B": ["C05"], "R5_C10A": ["C02"], "R5_C01A": ["C02"], "R4_C01B": ["C03"], "R4_C10A": ["C03"], "R4_C10B": ["C03"], "R4_C09B": ["C15"], "R4_C03A": ["C15"], "R4_C12A": ["C03"], "R4_C14B": ["C18"], "R4_C18B": ["C14"], "R4_C05A": ["C19"], "R4_C01A": ["C15"], "R3_C01A": ["C14"], "R3_C01B": ["C14"], "R3_C02A": ["C01"], "R3_C02B": ["C01"], "R3_C03A": ["C12"], "R3_C03B": ["C12", "C15"], "R3_C07A": ["C08"], "R3_C09A": ["C08"], "R3_C10B": ["C03"], "R3_C11A": ["C03", "C12"], "R3_C11B": ["C12"], "R3_C12A": ["C03"], "R3_C14A": ["C01"], "R3_C14B": ["C01"], "R3_C15A": ["C03", "C07"], "R3_C15B": ["C03"], "R3_C19A": ["C20"], "R3_C20A": ["C16"], "R3_C16B": ["C20"], "R3_C06A": [], "R2_C11A": ["C03"], "R2_C12A": ["C03"], "R2_C03A": ["C01"], "R2_C09B": ["C08"], "R2_C07B": ["C08"], "R2_C10A": ["C06"], "R2_C14A": [], "R2_C01A": ["C10"], "R2_C06A": [], "C01A": ["C02"], "C01B": ["C02"], "C07A": ["C08"], "C07B": ["C15", "C03"], "C15A": ["C03", "C07"], "C15B": ["C03"], "C10A": ["C01"], "C10B": ["C03"], "C09A": ["C08"], "C14A": ["C01"], "C19B": ["C19"], "C04A": ["C06"], "C13A": ["C13"]}
 def run(name, prop, timeout=1500):
     wt = f"/tmp/tm/{name}.{prop}"
     subprocess.run(["git", "-C", "/repo", "worktree", "prune"])
